@@ -38,7 +38,7 @@ func (m c19) Run(ctx *core.Ctx) {
 	if ctx.Tier == "thorough" {
 		L = 5
 	}
-	runStateWorkload(ctx, m.Exec, histKinds{setters: true, resolve: true, clone: true, extra: true}, tierN(ctx.Tier, 1_000_000, 25_000_000), tierN(ctx.Tier, 1_000_000, 25_000_000), L)
+	runStateWorkload(ctx, m.Exec, histKinds{setters: true, resolve: true, clone: true, extra: true, sp: true}, tierN(ctx.Tier, 1_000_000, 25_000_000), tierN(ctx.Tier, 1_000_000, 25_000_000), L)
 	// parsers with custom special-scheme tables, interleaved in the same process
 	r := ctx.Rng
 	n := split(tierN(ctx.Tier, 300_000, 4_000_000), ctx.Shard, ctx.NShards)
@@ -49,7 +49,7 @@ func (m c19) Run(ctx *core.Ctx) {
 			in = gen.StartURL(r)
 		}
 		cs := &core.Case{Check: "custom-table", Input: core.S(in), Config: []string{gen.Pick(r, c19Tables)},
-			Ops: genHistory(r, 4, histKinds{setters: true, resolve: true, clone: true, extra: true})}
+			Ops: genHistory(r, 4, histKinds{setters: true, resolve: true, clone: true, extra: true, sp: true})}
 		ctx.Begin(cs)
 		m.Exec(ctx, cs)
 	}
@@ -68,7 +68,7 @@ func (m c19) Run(ctx *core.Ctx) {
 		if r.IntN(3) == 0 {
 			in = gen.Pick(r, []string{"mailto:x@y", "a:p", "data:,x  ?q#f", "mailto:%2Fx", "a:/p", "http://h/p", "file:///C|/x"})
 		}
-		cs := &core.Case{Check: "option-config", Input: core.S(in), Config: cfg, Ops: genHistory(r, 4, histKinds{setters: true, resolve: true, clone: true, extra: true})}
+		cs := &core.Case{Check: "option-config", Input: core.S(in), Config: cfg, Ops: genHistory(r, 4, histKinds{setters: true, resolve: true, clone: true, extra: true, sp: true})}
 		ctx.Begin(cs)
 		m.Exec(ctx, cs)
 	}
